@@ -305,14 +305,24 @@ func (n *domainNode) Domain(ctx context.Context, dt phase0.DomainType, epoch pha
 	if _, err := n.script.Do(ctx, fmt.Sprintf("op%d", opOf(ctx)), "Domain", nil); err != nil {
 		return phase0.Domain{}, err
 	}
-	return n.cp.Domain(ctx, dt, epoch)
+	// like a real node/client library: fork version in force at the epoch; the
+	// chain's genesis validators root except for the builder domain type
+	return nodeDomain(n.cp.C, dt, n.cp.C.ForkVersionAt(epoch)), nil
+}
+
+func nodeDomain(c *env.Chain, dt phase0.DomainType, version phase0.Version) phase0.Domain {
+	gvr := c.GenesisValidatorsRoot
+	if dt == env.DomainApplicationBuilder {
+		gvr = phase0.Root{}
+	}
+	return env.ComputeDomain(dt, version, gvr)
 }
 
 func (n *domainNode) GenesisDomain(ctx context.Context, dt phase0.DomainType) (phase0.Domain, error) {
 	if _, err := n.script.Do(ctx, fmt.Sprintf("op%d", opOf(ctx)), "Domain", nil); err != nil {
 		return phase0.Domain{}, err
 	}
-	return n.cp.GenesisDomain(ctx, dt)
+	return nodeDomain(n.cp.C, dt, n.cp.C.GenesisForkVersion), nil
 }
 
 type opRec struct {
